@@ -20,7 +20,7 @@ B11b == <<66,66,66,66,68,69,66,66,49,50,51>>
 
 Entry(cc, code, bic, prim) ==
     [cc |-> cc, code |-> code, bic |-> bic, primary |-> prim, name |-> "n", short |-> "s",
-     algo |-> <<>>, hasalgo |-> FALSE, wellformed |-> TRUE]
+     algo |-> <<>>, algoname |-> "", hasalgo |-> FALSE, wellformed |-> TRUE]
 Entries == {Entry(cc, code, bic, p) : cc \in {X, Y}, code \in {<<>>, C1, C2},
                                       bic \in {<<>>, B8, B11X, B11a, B11b}, p \in BOOLEAN}
 
